@@ -190,6 +190,41 @@ pub fn enumerate(tier: Tier) -> Vec<WitCase> {
                 &["wi", "we", "wb"],
                 vec!["use-chain3".into(), b.tag.into()],
             ));
+            // chain of three whose first hop renames, and whose second hop renames
+            out.push(case(
+                format!("use/chain3-rename-first/{}", b.tag),
+                *v,
+                format!("{i0}interface i1 {{\n  use i0.{{{n} as m}};\n  g: func(x: {hm});\n}}\n\ninterface i2 {{\n  use i1.{{m}};\n  h: func(y: {hm});\n}}\n\nworld wi {{ import i2; }}\nworld we {{ export i2; }}\n", hm = if b.resource { "borrow<m>".to_string() } else { "m".to_string() }),
+                &["i0", "i1", "i2"],
+                &["wi", "we"],
+                vec!["use-chain3-rename-first".into(), b.tag.into()],
+            ));
+            out.push(case(
+                format!("use/chain3-rename-second/{}", b.tag),
+                *v,
+                format!("{i0}interface i1 {{\n  use i0.{{{n}}};\n  g: func(x: {handle});\n}}\n\ninterface i2 {{\n  use i1.{{{n} as k}};\n  h: func(y: {hk});\n}}\n\nworld wi {{ import i2; }}\nworld we {{ export i2; }}\n", hk = if b.resource { "borrow<k>".to_string() } else { "k".to_string() }),
+                &["i0", "i1", "i2"],
+                &["wi", "we"],
+                vec!["use-chain3-rename-second".into(), b.tag.into()],
+            ));
+            // a use-free interface declaring its own item under the name another interface uses
+            let own = if b.resource { format!("resource {n};") } else { format!("record {n} {{ own-field: bool }}") };
+            out.push(case(
+                format!("use/name-clash-type/{}", b.tag),
+                *v,
+                format!("{i0}interface i1 {{\n  use i0.{{{n}}};\n  g: func(x: {handle});\n}}\n\ninterface i2 {{\n  {own}\n  h: func() -> {n};\n}}\n\nworld wi {{ import i1; import i2; }}\nworld wr {{ import i2; import i1; }}\nworld we {{ export i1; export i2; }}\n"),
+                &["i0", "i1", "i2"],
+                &["wi", "wr", "we"],
+                vec!["use-name-clash-type".into(), b.tag.into()],
+            ));
+            out.push(case(
+                format!("use/name-clash-func/{}", b.tag),
+                *v,
+                format!("{i0}interface i1 {{\n  use i0.{{{n}}};\n  g: func(x: {handle});\n}}\n\ninterface i2 {{\n  {n}: func();\n}}\n\nworld wi {{ import i1; import i2; }}\n"),
+                &["i0", "i1", "i2"],
+                &["wi"],
+                vec!["use-name-clash-func".into(), b.tag.into()],
+            ));
             // diamond
             out.push(case(
                 format!("use/diamond/{}", b.tag),
